@@ -97,6 +97,12 @@ def do_call(call):
     try:
         db = PyDBML(DOCS[doc], **kwargs_for(opt))
     except BaseException as e:
+        import pyparsing
+        if isinstance(e, pyparsing.ParseBaseException):
+            # the *text* of a pyparsing error message is assembled from lazily cached display names of grammar elements (excluded from
+            # the shared-state snapshot for that reason) and may legitimately vary with what was parsed before; class and location
+            # are what identifies the outcome
+            return ['raised', type(e).__name__, f'loc={e.loc} line={e.lineno} col={e.col}'], None
         return ['raised', type(e).__name__, str(e)[:300]], None
     return describe(db), db
 
